@@ -6,7 +6,7 @@
 //
 // Case kinds
 //
-//	ops     <n> {op} <confined> <m> {h<relpath> <d|f> h<content>}
+//	ops     h<spelling of the storage root, empty = absolute> <n> {op} <confined> <m> {h<relpath> <d|f> h<content>}
 //	   op = w h<name> h<content> <ok>
 //	      | r h<name> <ok|notexist|isdir|notdir|other> h<content>
 //	      | l h<prefix> <context kind> <error surfaced> <k> {h<name>}
@@ -152,12 +152,20 @@ func snapshot(dir string) map[string]string {
 }
 
 type sandbox struct {
+	oldwd                string
 	base, dir, bucketDir string
 	b                    storage.BucketHandle
 	before               map[string]string
 }
 
-func newSandbox() *sandbox {
+func newSandbox() *sandbox { return newSandboxAt("") }
+
+// newSandboxAt opens the bucket with the storage root SPELLED as given
+// relative to the sandbox's base directory ("" = the absolute path).  A
+// relative spelling (the services' default is the relative ".localstorage")
+// is resolved against the working directory, which is then the base
+// directory until the sandbox is closed.
+func newSandboxAt(spelling string) *sandbox {
 	base, err := os.MkdirTemp(root, "t")
 	if err != nil {
 		panic(err)
@@ -169,7 +177,15 @@ func newSandbox() *sandbox {
 	os.MkdirAll(filepath.Join(s.dir, "other-bucket", "a"), 0777)
 	os.WriteFile(filepath.Join(s.dir, "other-bucket", "a", "b"), []byte("other"), 0666)
 	// through the public constructor the services use (storage.NewBucket with cfg.LocalStorage)
-	b, err := storage.NewBucket(ctx, &config.Config{LocalStorage: s.dir}, "bkt")
+	local := s.dir
+	if spelling != "" {
+		s.oldwd, _ = os.Getwd()
+		if err := os.Chdir(base); err != nil {
+			panic(err)
+		}
+		local = strings.ReplaceAll(spelling, "$BASE", filepath.Base(base))
+	}
+	b, err := storage.NewBucket(ctx, &config.Config{LocalStorage: local}, "bkt")
 	if err != nil {
 		panic(err)
 	}
@@ -225,7 +241,12 @@ func treeOf(dir string) []string {
 	return append([]string{I(int64(n))}, fields...)
 }
 
-func (s *sandbox) close() { os.RemoveAll(s.base) }
+func (s *sandbox) close() {
+	if s.oldwd != "" {
+		os.Chdir(s.oldwd)
+	}
+	os.RemoveAll(s.base)
+}
 
 // A panic inside the bucket code is an observation (the operation failed in
 // the worst way), not a reason for the harness to die.
@@ -455,8 +476,15 @@ func caseMulti() {
 }
 
 func caseOps() {
-	s := newSandbox()
+	// how the storage root is spelled: absolute, or relative to the working directory
+	spelling := Pick(rnd, []string{"", "", "store", "./store", "../$BASE/store", "store/", "store/../store"})
+	s := newSandboxAt(spelling)
 	defer s.close()
+	if spelling == "" {
+		out.Note("storage-root:absolute")
+	} else {
+		out.Note("storage-root:relative")
+	}
 	target := 4 + rnd.Intn(28)
 	var ops []string
 	nops := 0
@@ -663,7 +691,7 @@ func caseOps() {
 			}
 		}
 	}
-	fields := []string{"ops", I(int64(nops))}
+	fields := []string{"ops", HS(spelling), I(int64(nops))}
 	fields = append(fields, ops...)
 	fields = append(fields, B(s.confined()))
 	fields = append(fields, s.tree()...)
